@@ -4,7 +4,8 @@
    that are quantified over unbounded objects: target-flag sequences of any length, namespace nesting of any depth. *)
 From Coq Require Import List String Bool Arith.
 From Coq Require Import Ascii.
-From PDV Require Import Lib.StrUtil Lang.Comment Idl.Cst Idl.Ast Idl.Resolver Idl.Visitor Idl.TargetsProofs Idl.VisitorProofs Idl.CommentCmd.
+From PDV Require Import Lib.StrUtil Lang.Comment Idl.Cst Idl.Ast Idl.Resolver Idl.Visitor Idl.TargetsProofs Idl.VisitorProofs Idl.CommentCmd
+                        Idl.GrammarDefs Idl.Lexer Idl.ParserG Idl.LexParseProofs Gen.Grammar.
 Import ListNotations.
 Open Scope string_scope. Open Scope list_scope.
 
@@ -69,6 +70,38 @@ Theorem C03_last_deprecated_wins : forall before after line t,
               = dep_of_text t.
 Proof. exact last_deprecated_wins. Qed.
 Print Assumptions C03_last_deprecated_wins.
+
+(* ---- from the text to the parse tree (model: generic lexer + parser on the grammar translated from Idl.g4; tie: K-parse) ----
+   nothing of the text is lost or invented by lexing, and every token's recorded line / column is the position reached by reading
+   the text in front of it: positions delimit the text of their construct *)
+Theorem C03_lexemes_partition_the_text : forall rules mf steps s line col ls,
+  lex_from steps mf rules s line col = Some ls -> concat_lexemes ls = s.
+Proof. exact lex_partition. Qed.
+Print Assumptions C03_lexemes_partition_the_text.
+
+Theorem C03_token_positions : forall rules mf steps s line col ls, lex_from steps mf rules s line col = Some ls ->
+  forall pre t post, ls = pre ++ LexTok t :: post -> (tk_line t, tk_col t) = advance (concat_lexemes pre) line col.
+Proof. exact lex_positions. Qed.
+Print Assumptions C03_token_positions.
+
+(* the leaves of every parse tree are exactly the tokens of the text, in order, followed by EOF: declarations and members appear in the tree
+   in the order in which they are written, none is dropped, none is duplicated - for every text the parser accepts and every grammar *)
+Theorem C03_parse_tree_frontier : forall lrules prules start s k, parse_text lrules prules start s = Some k ->
+  exists ls, lex_all lrules s = Some ls /\ has_lex_error ls = false /\ leaves k = map leaf (tokens_of ls ++ [eof_token s]).
+Proof. exact parse_text_leaves. Qed.
+Print Assumptions C03_parse_tree_frontier.
+
+Theorem C03_every_parse_spans_its_tokens : forall rules toks fuel g pos r, In r (ParserG.parse rules toks fuel g pos) ->
+  pos <= snd r /\ leaves_l (fst r) = map leaf (span toks pos (snd r)).
+Proof. exact parse_frontier. Qed.
+Print Assumptions C03_every_parse_spans_its_tokens.
+
+(* white space and line breaks between tokens do not reach the parser: two layouts of one declaration have the same token types and texts *)
+Example C03_layout_example :
+  let toks s := match lex_all lexer_rules s with Some ls => map (fun t => (tk_type t, tk_text t)) (tokens_of ls) | None => [] end in
+  toks ("rec=record{a:list<i32>?;}deriving(eq)") =
+  toks ("rec  =  record" ++ String nl "{" ++ String nl "    a : list < i32 > ? ;" ++ String nl "}" ++ String nl "deriving ( eq )" ++ String nl "")%string.
+Proof. vm_compute. reflexivity. Qed.
 
 Example C03_targets_examples :
   let keys := ["cpp"; "cppcli"; "java"; "objc"; "yaml"] in
